@@ -750,6 +750,27 @@ func (fr *frame) loopCore(st *State, node ast.Node, label string, scanNodes []as
 	if prepare != nil {
 		prepare(b)
 	}
+	// `hint[k] name: e`: a proof step at the start of the body of loop k (invariants and guard assumed, the
+	// iteration variables bound): proved as its own obligation, then assumed for the rest of the iteration
+	if fr.contract != nil && !b.dead {
+		for i, cl := range fr.contract.Clauses {
+			if cl.Kind != "hint" || cl.Idx != ls.ord {
+				continue
+			}
+			env := fc.invEnv(b, fr)
+			for k, v := range ls.extra {
+				env.vars[k] = v
+				env.old.vars[k] = v
+			}
+			name := cl.Name
+			if name == "" {
+				name = fmt.Sprintf("%d", i+1)
+			}
+			t := env.evalBool(cl.Expr)
+			fc.oblige(b, fr, "inv", fmt.Sprintf("hint[%d]/%s", ls.ord, name), t)
+			b.assume(t)
+		}
+	}
 	backEdge := func(s *State) {
 		if post != nil {
 			po := post(s)
